@@ -788,8 +788,9 @@ func heapNow() uint64 {
 // c12Mem: input whose size the peer chooses must not be kept in memory in proportion to its size ("no sequence of bytes from
 // a client or an upstream can crash the process": a few such connections would exhaust it). The proxy runs in this process,
 // so its heap is this process's heap; the senders stream from one small buffer.
-//   head:   a request head whose field line never ends (64 MiB and counting)
-//   reject: an upstream proxy that refuses the transport's CONNECT with a body of 64 MiB
+//
+//	head:   a request head whose field line never ends (64 MiB and counting)
+//	reject: an upstream proxy that refuses the transport's CONNECT with a body of 64 MiB
 func c12Mem(e *env) {
 	const total, step, bound = 64 << 20, 64 << 10, 24 << 20
 	chunk := bytes.Repeat([]byte("a"), step)
